@@ -1,31 +1,4 @@
 import Ledger.Driver.Registry
 
-/-!
-`ldriver`: reads cases (JSON lines) on stdin, prints one verdict per line.
-Core-only (no Mathlib) so it links as a native executable.
--/
-open Lean Ledger.Driver
-
-partial def loop (h : IO.FS.Stream) (out : IO.FS.Stream) (i : Nat) : IO Unit := do
-  let line ← h.getLine
-  if line.isEmpty then return ()
-  let t := line.trimAscii.toString
-  if t.isEmpty then loop h out i else
-  let res : Except String Verdict := do
-    let j ← Json.parse t
-    let f ← strField j "f"
-    let inp ← field j "in"
-    let o ← field j "out"
-    match handlers.lookup f with
-    | some hd => hd inp o
-    | none => throw s!"no handler for {f}"
-  match res with
-  | .ok v => out.putStrLn (v.toJson i).compress
-  | .error e => out.putStrLn (Json.mkObj [("i", i), ("error", e)]).compress
-  loop h out (i + 1)
-
-def main : IO Unit := do
-  let stdin ← IO.getStdin
-  let stdout ← IO.getStdout
-  loop stdin stdout 0
-  stdout.flush
+/-! `ldriver`: correspondence driver (core-only, native executable). -/
+def main : IO Unit := Ledger.Driver.runDriver Ledger.Driver.handlers
